@@ -80,7 +80,7 @@ def run_breaks(prop, breaks, repo="/repo"):
         mod = importlib.import_module("props.%s" % prop.lower())
         ck = Check(prop, "thorough", getattr(mod, "LEVEL", "other"))
         ck.extract_info = {"repo": dst}
-        mod.run(ck, Facts(fdir))
+        mod.run(ck, Facts(fdir), "thorough")
         keys = [v["key"] for v in ck.violations]
         for br in applied:
             hit = [k for k in keys if br["expect"] in k]
